@@ -884,7 +884,7 @@ def _bypass_obligations(b: Builder, prog: Program, summary: dict[Func, dict[str,
 FAMILIES = ("ids", "table", "descriptors", "direction")
 
 
-def obligations(repo: str = "/repo", sources: dict[str, str] | None = None,
+def obligations(repo: str | None = None, sources: dict[str, str] | None = None,
                 only: tuple[str, ...] | None = None) -> list[Obligation]:
     """All ground obligations of C13 for the working tree of ``repo``.
 
